@@ -5,12 +5,19 @@ package main
 import (
 	"fmt"
 	"os"
+	"runtime/pprof"
 
 	"verifharness/vkit"
 )
 
 func main() {
 	r := vkit.Start("exploration")
+	if p := os.Getenv("VBAL_CPUPROFILE"); p != "" { // developer aid only
+		if f, err := os.Create(p); err == nil {
+			pprof.StartCPUProfile(f)
+			defer pprof.StopCPUProfile()
+		}
+	}
 	switch r.Prop {
 	case "C01":
 		c01(r)
@@ -30,5 +37,6 @@ func main() {
 		fmt.Fprintln(os.Stderr, "vbal: unknown property", r.Prop)
 		os.Exit(vkit.ExitInconclusive)
 	}
+	pprof.StopCPUProfile()
 	r.Finish()
 }
